@@ -8,6 +8,8 @@ package main
 //  * C05/C03: two logs built from one shared entry map must not influence each other.
 
 import (
+	"berty.tech/go-ipfs-log/enc"
+	"berty.tech/go-ipfs-log/io/cbor"
 	"bytes"
 	"context"
 	"fmt"
@@ -50,7 +52,8 @@ func runForgeScenarios(rng *rand.Rand, n int, st *c06Stats, fail func(prop, mon,
 		// an access controller whose verdict depends on the entry, not only on its writer
 		pac := &payloadAC{deny: map[string]bool{}}
 		mk := func(id string) *ipfslog.IPFSLog {
-			l, err := ipfslog.NewLog(w.api, w.idents[id], &ipfslog.LogOptions{ID: "L", SortFn: sortFnOf(pick(rng, []string{"lww", "hash"})), AccessController: pac})
+			l, err := ipfslog.NewLog(w.api, w.idents[id], &ipfslog.LogOptions{ID: "L", SortFn: sortFnOf(pick(rng, []string{"lww", "hash"})), AccessController: pac,
+				Concurrency: uint(pick(rng, []int{0, 0, 1, 2, 16}))})
 			if err != nil {
 				panic(err)
 			}
@@ -694,6 +697,63 @@ func runMixedSortScenarios(rng *rand.Rand, n int, st *c06Stats, fail func(prop, 
 			}
 			if hd := sortedCopy(hashesOf(r.Heads().Slice())); !eqStrings(hd, unreferenced(r.Values().Slice())) {
 				fail("C16", "bounded-join-heads", "C16:wrong-heads", "heads are not the unreferenced entries among the kept ones", info)
+			}
+		}
+	}
+}
+
+// Two logs with the same id but different codecs (C05: "appends and merges never alter entries held by
+// other log instances"): the merging log seals links (cbor with a LinkKey), the merged log uses plain
+// cbor or another key.  Whether the merge is refused or not, the other log's entries stay byte-identical
+// and still verify with their own codec.
+func runMixedCodecScenarios(rng *rand.Rand, n int, st *c06Stats, fail func(prop, mon, key, detail string, c interface{})) {
+	ctx := context.Background()
+	dio, err := cbor.IO(&entry.Entry{}, &entry.LamportClock{})
+	if err != nil {
+		panic(err)
+	}
+	keyed := func(b byte) iface.IO {
+		k, err := enc.NewSecretbox(bytes.Repeat([]byte{b}, 32))
+		if err != nil {
+			panic(err)
+		}
+		return dio.ApplyOptions(&cbor.Options{LinkKey: k})
+	}
+	for it := 0; it < n; it++ {
+		w := newWorld()
+		ownerIO := []iface.IO{dio, keyed(2), nil}[it%3]
+		owner, _ := ipfslog.NewLog(w.api, w.idents["A"], &ipfslog.LogOptions{ID: "L", IO: ownerIO})
+		merger, _ := ipfslog.NewLog(w.api, w.idents["B"], &ipfslog.LogOptions{ID: "L", IO: keyed(1)})
+		for i, k := 0, 2+rng.Intn(5); i < k; i++ {
+			if _, err := owner.Append(ctx, []byte(fmt.Sprintf("o%d", i)), &ipfslog.AppendOptions{PointerCount: pick(rng, []int{1, 4})}); err != nil {
+				panic(err)
+			}
+		}
+		st.aliasRuns++
+		info := map[string]interface{}{"scenario": "merge between logs with different codecs", "owner_codec": []string{"cbor", "cbor+other link key", "default"}[it%3], "merger_codec": "cbor+link key", "seed_iteration": it}
+		before := snapLog(owner)
+		_, jerr := merger.Join(owner, -1)
+		after := snapLog(owner)
+		for hsh, ser := range before.entries {
+			if after.entries[hsh] != ser {
+				fail("C05", "other-logs-untouched", "C05:other-log-changed", fmt.Sprintf("an entry of the merged log was altered by the other log's Join (join error: %v)", jerr), info)
+				break
+			}
+		}
+		// what the merge admitted verifies under the MERGING log's codec (that is the check Join makes)
+		if jerr == nil {
+			for _, e := range merger.GetEntries().Slice() {
+				if err := e.(*entry.Entry).Verify(w.idents["A"].Provider, keyed(1)); err != nil {
+					fail("C06", "admitted-entries-verify", "C06:join-exposes-unverified-entry", "the merge admitted an entry that does not verify with the merging log's codec: "+err.Error(), info)
+					break
+				}
+			}
+		}
+		vio := ownerIO
+		for _, e := range owner.GetEntries().Slice() {
+			if err := e.(*entry.Entry).Verify(w.idents["A"].Provider, vio); err != nil {
+				fail("C05", "other-logs-untouched", "C05:other-log-changed", "after another log's Join an entry of the merged log no longer verifies with its own codec: "+err.Error(), info)
+				break
 			}
 		}
 	}
